@@ -56,7 +56,7 @@ def run(tier, replay=None):
     argsets = []
     exhaustive = False
     for m in range(12):
-        for sp in ("u", "s"):
+        for sp in ("u", "s", "m"):
             argsets.append(["c04list", "text", m, sp, bfile, "@OUT"])
             argsets.append(["c04list", "text", m, sp, small, "@OUT"])
         argsets.append(["c04list", "dir", m, "s", bfile, "@OUT"])
@@ -64,7 +64,7 @@ def run(tier, replay=None):
     if tier == "quick":
         # pseudo-random strided sweeps of the whole 32-bit space: ~2e7 values in all
         for m in range(12):
-            for sp in ("u", "s"):
+            for sp in ("u", "s", "m"):
                 stride = 4801 + 2 * rnd.randrange(200)
                 argsets.append(["c04", "text", m, sp, rnd.randrange(stride), 1 << 32, stride, "@OUT"])
     else:
@@ -78,18 +78,26 @@ def run(tier, replay=None):
                 for lo in range(0, 1 << 32, chunk):
                     argsets.append(["c04", "text", m, sp, lo, lo + chunk, 1, "@OUT"])
         for m in range(12):
-            if m in (3, 9):
-                continue
-            for sp in ("u", "s"):
+            for sp in ("u", "s", "m"):
+                if m in (3, 9) and sp != "m":
+                    continue
                 stride = 1201 + 2 * rnd.randrange(100)
                 argsets.append(["c04", "text", m, sp, rnd.randrange(stride), 1 << 32, stride, "@OUT"])
     res = common.run_selfgen(exe, argsets, tag="c04", timeout=400 if tier == "quick" else 6 * 3600)
     per = {}
     chain = [0] * 10
     total = 0
+    # a batch that ran into the wall-clock watchdog is run again alone with four times the budget before anything is said
+    # about it: a second firing is a hang, a batch that now finishes is judged like any other
+    tq = 400 if tier == "quick" else 6 * 3600
+    redo = [a for a, rc, js, err in res if rc == -999]
+    if redo:
+        again = common.run_selfgen(exe, [list(a) for a in redo], tag="c04redo", timeout=4 * tq, maxpar=4)
+        res = [r for r in res if r[1] != -999] + again
+        v.count("watchdog_firings_rerun", len(redo))
     for args, rc, js, err in res:
         if rc == -999:
-            v.violation("assembler-hang", {"args": [str(a) for a in args], "why": "the assembler did not finish this batch of operand values"})
+            v.violation("assembler-hang", {"args": [str(a) for a in args], "why": "the assembler did not finish this batch of operand values (twice; the second time alone with four times the budget)"})
             continue
         if rc != 0 or js is None:
             v.violation("harness-crash:rc=%s" % rc, {"args": [str(a) for a in args], "stderr": err})
@@ -116,7 +124,7 @@ def run(tier, replay=None):
     v.cov["exhaustive"] = exhaustive
     if exhaustive:
         v.cov["exhaustive_ranges"] = ["directive level: all 2^32 values x 12 mnemonics",
-                                      "text level: all 2^32 values x {LDAC, BR} x {unsigned, signed} spelling"]
+                                      "text level: all 2^32 values x {LDAC, BR} x {unsigned, signed} spelling; '-n' with n up to 2^32-1 for every value: strided"]
     v.assumptions = ["the ISA operand rule (PFIX: oreg<<4, NFIX: 0xFFFFFF00|oreg<<4, from a clear oreg) is the decoder",
                      "text-level enumeration is complete for LDAC and BR only; the other ten mnemonics share parseInteger and are sampled"]
     return v.finish(min_evaluations=1000000)
